@@ -422,7 +422,8 @@ Definition delivery_orders : list (list op) :=
 
 Definition synced (w : world) : world :=
   mkWorld (w_spec w) (w_spec w) (w_st w) (w_st w) (w_pods w) (w_pods w) (w_pg w) (w_pg w)
-          (mkCtl true false (c_wdel (v_ctl w)) (c_wdel (v_ctl w)) (c_queue (v_ctl w)) (drop_delays (c_delay (v_ctl w)))).
+          (mkCtl true false (c_wdel (v_ctl w)) (c_wdel (v_ctl w)) (c_queue (v_ctl w)) (drop_delays (c_delay (v_ctl w)))
+                 (no_rq (q_max (c_rq (v_ctl w))))).
 
 (* in particular: pods delivered BEFORE the job (cache.AddPod creates a placeholder,
    cache.Add then does SetJob on it) are still there afterwards *)
